@@ -9,7 +9,7 @@ from pyvc.values import *  # noqa
 from pyvc import regex as R
 
 ASSUMPTIONS = [
-    "a deserialized scalar is one of: int, bool, str, None, float, bytes (lists / dicts are covered where a unit says so)",
+    "a deserialized value is one of: int, bool, str, None, float, bytes, list, dict (sets, tuples and extension types of the binary codecs are not produced by the configured decoders -- not decided here)",
     "Python's `re` semantics are taken from CPython's own pattern parser (pyvc.regex): `$` also matches before a trailing "
     "newline, \\d / \\s are the Unicode classes; characters are limited to z3's range (<= U+2FFFF)",
     "spec whitespace = the characters with str.isspace() (Unicode White_Space plus the ASCII separators FS GS RS US)",
@@ -18,7 +18,7 @@ LEVEL = "other"     # the validators are proved; the per-class parse() functions
 NOT_COVERED = ["the 25 per-class parse() functions", "Serializer.unserialize envelope checks and exception wrapping",
                "check_or_raise_extra / _validate_kwargs (iteration over dynamically typed dict keys)"]
 MSG = "autobahn.wamp.message"
-UNTRUSTED = "int|bool|str|none|real|bytes"
+UNTRUSTED = "int|bool|str|none|real|bytes|ulist:any|udict:"
 RS = R.RS
 
 
@@ -83,7 +83,100 @@ def build(reg):
     reg.contract(MSG + ":check_or_raise_realm_name", params={"value": UNTRUSTED, "message": "str", "allow_eth": "bool"},
                  returns=UNTRUSTED, ensures=[IS_REALM, "result is value"], raises={"InvalidUriError": "not (%s)" % IS_REALM},
                  **common)
+    parse_units(reg, common)
 
+
+# ----------------------------------------------------------------------------------------------- per-class parse()
+SCALAR = "int|bool|str|none|real|bytes"
+FF_OK = ("type(%s) == dict and 'session' in %s and type(%s['session']) == int and 'authid' in %s and "
+         "(%s['authid'] is None or type(%s['authid']) == str) and 'authrole' in %s and type(%s['authrole']) == str")
+
+
+def parse_units(reg, common):
+    """Cls.parse(wmsg) for an untrusted wmsg: a list of unknown length (type ulist) whose elements are, independently,
+    any scalar, a list or a dict; the option / details dict lists the keys the class reads (the engine refuses a read of
+    any other key), each with an untrusted value, and may hold further keys of any type"""
+    A = reg.type_aliases
+    A["L"] = "ulist:any"                                            # a list nobody looks into
+    A["D"] = "udict:"                                               # a dict nobody looks into
+    A["V"] = SCALAR + "|@L|@D"
+    A["FFE"] = SCALAR + "|@L|udict:session=@V,authid=@V,authrole=@V"
+    A["FF"] = SCALAR + "|ulist:@FFE|@D"
+
+    def unit(cls, options, ensures, extra_inline=(), loops=None):
+        A["W" + cls] = SCALAR + "|@L|udict:" + ",".join("%s=%s" % kv for kv in options.items())
+        inl = [MSG + ":%s.%s" % (cls, x) for x in ["__init__"] + list(extra_inline)] + [
+            MSG + ":Message.__init__", MSG + ":check_or_raise_extra", MSG + ":_validate_kwargs",
+            MSG + ":MessageWithForwardFor.forward_for", MSG + ":MessageWithForwardFor.__init__",
+            MSG + ":MessageWithForwardFor._init_forward_for"]
+        reg.contract(MSG + ":%s.parse" % cls, params={"wmsg": "ulist:@W" + cls}, returns="any",
+                     requires=["len(wmsg) > 0", "type(wmsg[0]) == int and wmsg[0] == %s.MESSAGE_TYPE" % cls],
+                     ensures=["isinstance(result, %s)" % cls] + ensures,
+                     raises={"ProtocolError": "True", "InvalidUriError": "True"},
+                     inline_calls=inl, loops=loops or {}, **common)
+        if loops:
+            # the constructor walks the chain again with assertions: no invariant of its own, every assertion has to
+            # follow from what parse() established
+            reg.inline_loops[MSG + ":%s.__init__" % cls] = {"iter:forward_for": {"index": "_j", "invariant": [], "modifies": [],
+                                                                                 "pure_calls": True}}
+    FF_LOOP = {"iter:forward_for": {"index": "_j", "invariant": ["forall(q, 0, _j, %s)" % FF_OK.replace("%s", "forward_for[q]")],
+                                    "modifies": [], "pure_calls": True}}
+    FF_ENS = "implies(result.forward_for is not None, type(result.forward_for) == list and forall(q, 0, len(result.forward_for), %s))" \
+        % FF_OK.replace("%s", "result.forward_for[q]")
+    def ID(f, i):
+        return "type(result.%s) == int and id_ok(result.%s) and result.%s == wmsg[%d]" % (f, f, f, i)
+
+    def URI(f, src, flags="False, False, False"):
+        return "type(result.%s) == str and uri_ok(result.%s, %s) and result.%s == %s" % (f, f, flags, f, src)
+
+    def OPT(f, i, typ, key=None):
+        key = key or f
+        return ["result.%s is None or type(result.%s) == %s" % (f, f, typ),
+                "implies('%s' in wmsg[%d], result.%s == wmsg[%d]['%s'])" % (key, i, f, i, key),
+                "implies('%s' not in wmsg[%d], result.%s is None)" % (key, i, f)]
+
+    def FF(i):
+        return ["('forward_for' in wmsg[%d]) == (result.forward_for is not None)" % i, FF_ENS]
+    unit("Subscribe", {"match": "@V", "get_retained": "@V", "forward_for": "@FF"},
+         [ID("request", 1), URI("topic", "wmsg[3]", "False, False, True"),
+          "result.match == 'exact' or result.match == 'prefix' or result.match == 'wildcard'",
+          "implies('match' in wmsg[2], result.match == wmsg[2]['match'])"] + OPT("get_retained", 2, "bool") + FF(2),
+         extra_inline=["request", "topic", "match", "get_retained"], loops=FF_LOOP)
+    unit("Published", {}, [ID("request", 1), ID("publication", 2)], extra_inline=["request", "publication"])
+    unit("Subscribed", {}, [ID("request", 1), ID("subscription", 2)], extra_inline=["request", "subscription"])
+    unit("Registered", {}, [ID("request", 1), ID("registration", 2)], extra_inline=["request", "registration"])
+    unit("EventReceived", {}, [ID("publication", 1)], extra_inline=["publication"])
+    unit("Abort", {"message": "@V"}, [URI("reason", "wmsg[2]")] + OPT("message", 1, "str"), extra_inline=["reason", "message"])
+    unit("Goodbye", {"message": "@V", "resumable": "@V"},
+         [URI("reason", "wmsg[2]")] + OPT("message", 1, "str") + OPT("resumable", 1, "bool"),
+         extra_inline=["reason", "message", "resumable"])
+    unit("Challenge", {}, ["type(result.method) == str and result.method == wmsg[1]", "result.extra == wmsg[2]"],
+         extra_inline=["method", "extra"])
+    unit("Authenticate", {}, ["type(result.signature) == str and result.signature == wmsg[1]", "result.extra == wmsg[2]"],
+         extra_inline=["signature", "extra"])
+    unit("Cancel", {"mode": "@V", "forward_for": "@FF"},
+         [ID("request", 1), "result.mode is None or result.mode == 'skip' or result.mode == 'killnowait' or result.mode == 'kill'"]
+         + OPT("mode", 2, "str")[1:] + FF(2), extra_inline=["request", "mode"], loops=FF_LOOP)
+    unit("Interrupt", {"mode": "@V", "reason": "@V", "forward_for": "@FF"},
+         [ID("request", 1), "result.mode is None or result.mode == 'killnowait' or result.mode == 'kill'"]
+         + OPT("mode", 2, "str")[1:] + ["implies(result.reason is not None, " + URI("reason", "wmsg[2]['reason']") + ")",
+                                         "('reason' in wmsg[2]) == (result.reason is not None)"] + FF(2),
+         extra_inline=["request", "mode", "reason"], loops=FF_LOOP)
+    unit("Unsubscribe", {"forward_for": "@FF"},
+         [ID("request", 1), ID("subscription", 2),
+          "implies(result.forward_for is not None, len(wmsg) == 4 and 'forward_for' in wmsg[3])", FF_ENS],
+         extra_inline=["request", "subscription"], loops=FF_LOOP)
+    unit("Unregister", {"forward_for": "@FF"},
+         [ID("request", 1), ID("registration", 2),
+          "implies(result.forward_for is not None, len(wmsg) == 4 and 'forward_for' in wmsg[3])", FF_ENS],
+         extra_inline=["request", "registration"], loops=FF_LOOP)
+    for cls, f in (("Unsubscribed", "subscription"), ("Unregistered", "registration")):
+        unit(cls, {f: "@V", "reason": "@V"},
+             [ID("request", 1),
+              "implies(result.%s is not None, type(result.%s) == int and id_ok(result.%s) and len(wmsg) == 3 and "
+              "result.%s == wmsg[2]['%s'])" % (f, f, f, f, f),
+              "implies(result.reason is not None, len(wmsg) == 3 and " + URI("reason", "wmsg[2]['reason']") + ")"],
+             extra_inline=["request", f, "reason"])
 
 def extra_checks(tier, seed):
     return []
@@ -140,6 +233,97 @@ print(json.dumps({"got": got, "want": "accepted" if want else "rejected"}))
 '''
 
 
+_PARSE_HARNESS = r'''
+import json
+import txaio; txaio.use_asyncio()
+from autobahn.wamp import message as M
+from autobahn.wamp.message import *
+from autobahn.wamp.exception import ProtocolError, InvalidUriError
+case = CASE
+WS = [c for c in map(chr, range(0x30000)) if c.isspace()]
+
+def comp_ok(c, strict):
+    if not c:
+        return False
+    if strict:
+        return all(ch in "0123456789abcdefghijklmnopqrstuvwxyz_" for ch in c)
+    return all(ch not in WS and ch not in ".#" for ch in c)
+
+def uri_ok(s, strict, ale, ae):
+    parts = s.split(".")
+    if ale:
+        return all(comp_ok(c, strict) for c in parts[:-1]) and (parts[-1] == "" or comp_ok(parts[-1], strict))
+    if ae:
+        return all(c == "" or comp_ok(c, strict) for c in parts)
+    return all(comp_ok(c, strict) for c in parts)
+
+def id_ok(v):
+    return 0 <= v <= 2 ** 53
+
+def build(x):
+    if isinstance(x, list):
+        return [build(y) for y in x]
+    if isinstance(x, dict) and "bytes" in x:
+        return bytes(int(b) & 255 for b in x["bytes"] if not isinstance(b, str))
+    if isinstance(x, dict) and "dict" in x:
+        d = {k: build(v) for k, v in x["dict"].items()}
+        if "other_key" in x:
+            k = build(x["other_key"])
+            d[k if k.__hash__ else repr(k)] = 0
+        return d
+    if x == "<opaque>":
+        return 0
+    return x
+
+wmsg = build(case["wmsg"])
+cls = getattr(M, case["cls"])
+out = {"wmsg": repr(wmsg)}
+try:
+    result = cls.parse(wmsg)
+except (ProtocolError, InvalidUriError) as e:
+    out["outcome"] = "rejected: %s" % type(e).__name__
+except Exception as e:
+    out["outcome"] = "escaped: %s" % type(e).__name__; out["bad"] = "parse() raised %s (%s)" % (type(e).__name__, e)
+else:
+    out["outcome"] = "accepted"
+    if case.get("clause"):
+        try:
+            ok = bool(eval(case["clause"]))
+        except Exception as e:
+            ok = False; out["clause_error"] = repr(e)
+        if not ok:
+            out["bad"] = "accepted, but the contract clause is false on the returned message"
+print(json.dumps(out))
+'''
+
+
+def _replay_parse(o, unit):
+    from pyvc import replaylib as Rp
+    import re as _re
+    cls = _re.search(r":(\w+)\.parse", unit).group(1)
+    inp = o.get("inputs") or {}
+    clause = None
+    if o.get("kind") == "ensures" or "/ensures" in (o.get("name") or ""):
+        src = (o.get("info") or {}).get("clause")
+        try:
+            clause = Rp.native_clause(src) if src else None
+        except Exception:
+            clause = None
+    cands = [inp.get("wmsg")] + [c.get("wmsg") for c in (o.get("candidate_inputs") or []) if isinstance(c, dict)]
+    last = None
+    for w in cands:
+        if not isinstance(w, list):
+            continue
+        out = Rp.run_py(_PARSE_HARNESS.replace("CASE", repr({"cls": cls, "wmsg": w, "clause": clause})))
+        last = out
+        if isinstance(out, dict) and out.get("bad"):
+            return {"reproduced": True, "case": {"cls": cls, "wmsg": out.get("wmsg")}, "observed": out,
+                    "detail": "the counterexample structure handed to the real %s.parse(); a violation is an exception other than "
+                              "ProtocolError / InvalidUriError, or an accepted message on which the failed contract clause, "
+                              "evaluated natively on the real objects, is false" % cls}
+    return {"reproduced": False, "observed": last, "detail": "the real parse() behaved as the property demands on this input"}
+
+
 def _val(x):
     if isinstance(x, dict) and "bytes" in x:
         return bytes(int(b) & 255 for b in x["bytes"] if not isinstance(b, str))
@@ -152,6 +336,8 @@ def replay(o):
     unit = o.get("unit") or o.get("name", "")
     fn = "id" if "check_or_raise_id" in unit else ("uri" if "check_or_raise_uri" in unit else
                                                     ("realm" if "realm_name" in unit else None))
+    if fn is None and ".parse" in unit:
+        return _replay_parse(o, unit)
     if fn is None:
         return {"reproduced": False, "detail": "no replay harness for this unit"}
     case = {"fn": fn, "value": _val(inp.get("value"))}
